@@ -129,7 +129,7 @@ ApplyValue(st, fun, arg) ==
 CaseOfConstant(c) ==
     CASE c.t = "unit" -> [ok |-> TRUE, tag |-> 0, fields |-> <<>>, max |-> 1]
       [] c.t = "bool" -> [ok |-> TRUE, tag |-> IF c.v THEN 1 ELSE 0, fields |-> <<>>, max |-> 2]
-      [] c.t = "int"  -> IF IsHuge(c.v) \/ c.v < 0
+      [] c.t = "int"  -> IF IsHuge(c) \/ c.v < 0
                          THEN [ok |-> FALSE, miss |-> TRUE]
                          ELSE [ok |-> TRUE, tag |-> c.v, fields |-> <<>>, max |-> -1]
       [] c.t = "list" -> IF Len(c.v) = 0
